@@ -133,6 +133,12 @@ func checkC06Body(c *C06Case) Result {
 		}()
 	}
 	conf := expandTmp(strings.Join(c.Lines, "\n"))
+	// the serial audit log shared by all transactions of the case starts empty
+	serialLog := ""
+	if strings.Contains(conf, "SecAuditLogType Serial") {
+		serialLog = expandTmp(tmpPlaceholder + "/c06-audit.log")
+		_ = os.Remove(serialLog)
+	}
 	// sequential reference outcomes on a fresh WAF
 	ref, err := newWAF(conf)
 	if err != nil {
@@ -282,6 +288,27 @@ func checkC06Body(c *C06Case) Result {
 				failures = append(failures, fmt.Sprintf("WAFs built concurrently were given the same transformation-chain id %d for two different chains: %q and %q", id, chains[0], ch))
 				break
 			}
+		}
+	}
+	if serialLog != "" && len(failures) == 0 {
+		// writers sharing one audit log: one whole record per line, one line per transaction (the audit engine is On)
+		raw, err := os.ReadFile(serialLog)
+		if err != nil {
+			failures = append(failures, fmt.Sprintf("the shared serial audit log cannot be read: %v", err))
+		} else {
+			lines := strings.Split(strings.TrimSuffix(string(raw), "\n"), "\n")
+			wantN := len(c.Reqs) + c.Goroutines*c.PerG
+			for _, l := range lines {
+				var doc map[string]any
+				if json.Unmarshal([]byte(l), &doc) != nil {
+					failures = append(failures, fmt.Sprintf("a line of the shared serial audit log is not one whole record (records of concurrent transactions interleaved): %.200q", l))
+					break
+				}
+			}
+			if len(failures) == 0 && len(lines) != wantN {
+				failures = append(failures, fmt.Sprintf("the shared serial audit log holds %d records for %d transactions", len(lines), wantN))
+			}
+			res.Labels = append(res.Labels, "shared-serial-audit-log-checked")
 		}
 	}
 	if len(failures) > 0 {
